@@ -1,4 +1,5 @@
 import GqlProofs.ExecFuel
+import GqlProofs.ExecErr
 /-! The state (errors, log, known-finding marks) is write-only: what a call of the four functions returns, and what
 it appends to the state, does not depend on the state it is given. Hence the value computed for a field is independent
 of whatever its siblings recorded (C04: a failure in one field does not alter the value of a sibling). -/
@@ -99,27 +100,228 @@ theorem stP_field (c : Ctx) (fuel : Nat) (ih : StP c fuel) :
       by_cases hnn : fd.type.isNonNull = true
       · refine ⟨.fail, addErr dl p dfr, fun st => ?_⟩
         simp only [execField, hn, Bool.false_eq_true, if_false, hout, hnn, if_true]
+        show (Res.fail, addErr ({ st with log := ent :: st.log } : St) p dfr) = _
         rw [← addErr_app, ← hlog]
       · refine ⟨.ok .null, addErr dl p dfr, fun st => ?_⟩
         simp only [execField, hn, Bool.false_eq_true, if_false, hout, hnn]
+        show (Res.ok JVal.null, addErr ({ st with log := ent :: st.log } : St) p dfr) = _
         rw [← addErr_app, ← hlog]
     | value v =>
       obtain ⟨r1, d1, h1⟩ := ih.complete dfr fd.type rt fd.name nodes p v
       have h1' : ∀ st : St, complete c fuel dfr fd.type rt fd.name nodes p v { st with log := ent :: st.log }
           = (r1, (d1.app dl).app st) := fun st => by rw [hlog, h1, St.app_assoc]
+      have hunf : ∀ st : St, execField c (fuel + 1) dfr rt src p fd nodes st =
+          (match complete c fuel dfr fd.type rt fd.name nodes p v { st with log := ent :: st.log } with
+          | (.ok j, st) => (.ok j, st)
+          | (.fail, st) => if fd.type.isNonNull then (.fail, st) else (.ok .null, st)
+          | (.fuelOut, st) => (.fuelOut, st)) := fun st => by
+        simp only [execField, hn, Bool.false_eq_true, if_false, hout]
+        rfl
       cases r1 with
-      | ok j =>
-        exact ⟨.ok j, d1.app dl, fun st => by
-          simp only [execField, hn, Bool.false_eq_true, if_false, hout]; rw [h1' st]⟩
+      | ok j => exact ⟨.ok j, d1.app dl, fun st => by rw [hunf, h1' st]⟩
       | fail =>
         by_cases hnn : fd.type.isNonNull = true
-        · exact ⟨.fail, d1.app dl, fun st => by
-            simp only [execField, hn, Bool.false_eq_true, if_false, hout]; rw [h1' st]; simp only [hnn, if_true]⟩
+        · exact ⟨.fail, d1.app dl, fun st => by rw [hunf, h1' st]; simp only [hnn, if_true]⟩
         · exact ⟨.ok .null, d1.app dl, fun st => by
-            simp only [execField, hn, Bool.false_eq_true, if_false, hout]; rw [h1' st]
-            simp only [hnn, Bool.false_eq_true, if_false]⟩
-      | fuelOut =>
-        exact ⟨.fuelOut, d1.app dl, fun st => by
-          simp only [execField, hn, Bool.false_eq_true, if_false, hout]; rw [h1' st]⟩
+            rw [hunf, h1' st]; simp only [hnn, Bool.false_eq_true, if_false]⟩
+      | fuelOut => exact ⟨.fuelOut, d1.app dl, fun st => by rw [hunf, h1' st]⟩
+
+/-- the known-finding mark of a failing deferred value -/
+def kfMark (t : GType) (p : Path) (st : St) : St :=
+  { st with kfThunk := if t.isNonNull then p :: st.kfThunk else st.kfThunk }
+
+theorem kfMark_app (t : GType) (p : Path) (d st : St) : kfMark t p (d.app st) = (kfMark t p d).app st := by
+  unfold kfMark St.app
+  cases t.isNonNull <;> simp
+
+theorem stP_complete (c : Ctx) (fuel : Nat) (ih : StP c fuel) :
+    ∀ dfr t rt fname nodes p v, ∃ r d, ∀ st,
+    complete c (fuel + 1) dfr t rt fname nodes p v st = (r, St.app d st) := by
+  intro dfr t rt fname nodes p v
+  -- a failure recorded right here
+  have hhere : ∃ r d, ∀ st : St, ((Res.fail : Res JVal), addErr st p dfr) = (r, St.app d st) :=
+    ⟨.fail, addErr St.empty p dfr, fun st => by rw [← addErr_app, St.empty_app]⟩
+  have hgroups : ∀ ot, ∃ r d, ∀ st : St,
+      (match execGroups c fuel dfr ot v p (collectMerged c ot nodes) [] st with
+        | (.ok fs, st) => ((Res.ok (JVal.obj fs) : Res JVal), st)
+        | (.fail, st) => (.fail, st)
+        | (.fuelOut, st) => (.fuelOut, st)) = (r, St.app d st) := by
+    intro ot
+    obtain ⟨r1, d1, h1⟩ := ih.groups dfr ot v p (collectMerged c ot nodes) []
+    cases r1 with
+    | ok fs => exact ⟨.ok (.obj fs), d1, fun st => by rw [h1]⟩
+    | fail => exact ⟨.fail, d1, fun st => by rw [h1]⟩
+    | fuelOut => exact ⟨.fuelOut, d1, fun st => by rw [h1]⟩
+  cases hnf : v.notFunc with
+  | false =>
+    have hbad : ∃ r d, ∀ st : St, ((Res.fail : Res JVal), kfMark t p (addErr st p true)) = (r, St.app d st) :=
+      ⟨.fail, kfMark t p (addErr St.empty p true), fun st => by rw [← kfMark_app, ← addErr_app, St.empty_app]⟩
+    cases v with
+    | thunk tr =>
+      cases tr with
+      | err =>
+        obtain ⟨r, d, h⟩ := hbad
+        exact ⟨r, d, fun st => by rw [← h st]; simp only [complete]; rfl⟩
+      | ok v' =>
+        obtain ⟨r1, d1, h1⟩ := ih.complete true t rt fname nodes p v'
+        cases r1 with
+        | ok j => exact ⟨.ok j, d1, fun st => by simp only [complete, h1 st]⟩
+        | fail =>
+          refine ⟨.fail, kfMark t p d1, fun st => ?_⟩
+          simp only [complete, h1 st]
+          rw [← kfMark_app]; rfl
+        | fuelOut => exact ⟨.fuelOut, d1, fun st => by simp only [complete, h1 st]⟩
+    | badFunc =>
+      obtain ⟨r, d, h⟩ := hbad
+      exact ⟨r, d, fun st => by rw [← h st]; simp only [complete]; rfl⟩
+    | _ => simp [GoVal.notFunc] at hnf
+  | true =>
+    suffices h : ∃ r d, ∀ st, completeBody c fuel dfr t rt fname nodes p v st = (r, St.app d st) by
+      obtain ⟨r, d, h⟩ := h
+      exact ⟨r, d, fun st => by rw [complete_succ_notFunc c _ _ _ _ _ _ _ _ _ hnf]; exact h st⟩
+    cases t with
+    | nonNull inner =>
+      obtain ⟨r1, d1, h1⟩ := ih.complete dfr inner rt fname nodes p v
+      cases r1 with
+      | ok j =>
+        by_cases hj : j = .null
+        · subst hj
+          refine ⟨.fail, addErr d1 p dfr, fun st => ?_⟩
+          simp only [completeBody, h1 st]
+          rw [addErr_app]
+        · refine ⟨.ok j, d1, fun st => ?_⟩
+          simp only [completeBody, h1 st]
+          cases j <;> first | exact absurd rfl hj | rfl
+      | fail => exact ⟨.fail, d1, fun st => by simp only [completeBody, h1 st]⟩
+      | fuelOut => exact ⟨.fuelOut, d1, fun st => by simp only [completeBody, h1 st]⟩
+    | list item =>
+      by_cases hnull : v.nullish = true
+      · exact ⟨.ok .null, St.empty, fun st => by simp only [completeBody, hnull, if_true, St.empty_app]⟩
+      · cases v with
+        | list xs =>
+          obtain ⟨r1, d1, h1⟩ := ih.items dfr item rt fname nodes p xs 0 []
+          cases r1 with
+          | ok js => exact ⟨.ok (.list js), d1, fun st => by
+              simp only [completeBody, hnull, Bool.false_eq_true, if_false, h1 st]⟩
+          | fail => exact ⟨.fail, d1, fun st => by
+              simp only [completeBody, hnull, Bool.false_eq_true, if_false, h1 st]⟩
+          | fuelOut => exact ⟨.fuelOut, d1, fun st => by
+              simp only [completeBody, hnull, Bool.false_eq_true, if_false, h1 st]⟩
+        | _ =>
+          obtain ⟨r, d, h⟩ := hhere
+          exact ⟨r, d, fun st => by rw [← h st]; simp only [completeBody, hnull, Bool.false_eq_true, if_false]⟩
+    | named n =>
+      by_cases hnull : v.nullish = true
+      · exact ⟨.ok .null, St.empty, fun st => by simp only [completeBody, hnull, if_true, St.empty_app]⟩
+      · by_cases hleaf : c.schema.isLeaf n = true
+        · cases hs : serializeLeaf c.schema n v with
+          | some j => exact ⟨.ok j, St.empty, fun st => by
+              simp only [completeBody, hnull, Bool.false_eq_true, if_false, hleaf, if_true, hs, St.empty_app]⟩
+          | none =>
+            obtain ⟨r, d, h⟩ := hhere
+            exact ⟨r, d, fun st => by
+              rw [← h st]; simp only [completeBody, hnull, Bool.false_eq_true, if_false, hleaf, if_true, hs]⟩
+        · by_cases habs : c.schema.isAbstract n = true
+          · cases hrt : runtimeTypeOf c n v with
+            | none =>
+              obtain ⟨r, d, h⟩ := hhere
+              exact ⟨r, d, fun st => by
+                rw [← h st]; simp only [completeBody, hnull, Bool.false_eq_true, if_false, hleaf, habs, if_true, hrt]⟩
+            | some ot =>
+              by_cases hposs : (!(c.schema.isObject ot && c.schema.isPossibleType n ot)) = true
+              · obtain ⟨r, d, h⟩ := hhere
+                exact ⟨r, d, fun st => by
+                  rw [← h st]
+                  simp only [completeBody, hnull, Bool.false_eq_true, if_false, hleaf, habs, if_true, hrt, hposs]⟩
+              · obtain ⟨r, d, h⟩ := hgroups ot
+                exact ⟨r, d, fun st => by
+                  rw [← h st]
+                  simp only [completeBody, hnull, Bool.false_eq_true, if_false, hleaf, habs, if_true, hrt, hposs]
+                  rfl⟩
+          · by_cases hobj : c.schema.isObject n = true
+            · by_cases hito : (objectHasIsTypeOf c.schema n && !c.world.isTypeOfAns n v) = true
+              · obtain ⟨r, d, h⟩ := hhere
+                exact ⟨r, d, fun st => by
+                  rw [← h st]
+                  simp only [completeBody, hnull, Bool.false_eq_true, if_false, hleaf, habs, hobj, if_true, hito]⟩
+              · obtain ⟨r, d, h⟩ := hgroups n
+                exact ⟨r, d, fun st => by
+                  rw [← h st]
+                  simp only [completeBody, hnull, Bool.false_eq_true, if_false, hleaf, habs, hobj, if_true, hito]
+                  rfl⟩
+            · obtain ⟨r, d, h⟩ := hhere
+              exact ⟨r, d, fun st => by
+                rw [← h st]; simp only [completeBody, hnull, Bool.false_eq_true, if_false, hleaf, habs, hobj]⟩
+
+theorem stP (c : Ctx) : ∀ fuel, StP c fuel
+  | 0 => stP_zero c
+  | fuel + 1 =>
+    have ih := stP c fuel
+    ⟨stP_groups c fuel ih, stP_field c fuel ih, stP_complete c fuel ih, stP_items c fuel ih⟩
+
+/-- what `execField` returns does not depend on the state it is given -/
+theorem execField_result_state_independent (c : Ctx) (fuel : Nat) (dfr : Bool) (rt : String) (src : GoVal) (p : Path)
+    (fd : FieldDefS) (nodes : List FieldNode) (st st0 : St) :
+    (execField c fuel dfr rt src p fd nodes st).1 = (execField c fuel dfr rt src p fd nodes st0).1 := by
+  obtain ⟨r, d, h⟩ := (stP c fuel).field dfr rt src p fd nodes
+  rw [h st, h st0]
+
+/-- the value a successful selection set holds for a field is the value that field's execution yields ON ITS OWN, from
+any state whatsoever — independent of what its siblings did, failed at, or recorded -/
+theorem execGroups_field_values (c : Ctx) : ∀ fuel dfr rt src path groups acc st fs st',
+    execGroups c fuel dfr rt src path groups acc st = (.ok fs, st') →
+    ∀ k nodes node fd, (k, nodes) ∈ groups → nodes.head? = some node → fieldDef? c.schema rt node.name = some fd →
+      ∃ v, (k, v) ∈ fs ∧ ∀ st0, (execField c fuel dfr rt src (path ++ [.key k]) fd nodes st0).1 = .ok v
+  | 0, dfr, rt, src, path, groups, acc, st, fs, st', h => by simp [execGroups] at h
+  | fuel + 1, dfr, rt, src, path, [], acc, st, fs, st', h => by intro k nodes node fd hm; cases hm
+  | fuel + 1, dfr, rt, src, path, (key, nodes0) :: rest, acc, st, fs, st', h => by
+    simp only [execGroups] at h
+    -- lifting a statement about the recursive call (fuel) to this call (fuel + 1)
+    have hlift : ∀ acc1 st1, execGroups c fuel dfr rt src path rest acc1 st1 = (.ok fs, st') →
+        ∀ k nodes node fd, (k, nodes) ∈ rest → nodes.head? = some node → fieldDef? c.schema rt node.name = some fd →
+          ∃ v, (k, v) ∈ fs ∧ ∀ st0, (execField c (fuel + 1) dfr rt src (path ++ [.key k]) fd nodes st0).1 = .ok v := by
+      intro acc1 st1 h1 k nodes node fd hm hnode hfd
+      obtain ⟨v, hv, hall⟩ := execGroups_field_values c fuel _ _ _ _ _ _ _ _ _ h1 k nodes node fd hm hnode hfd
+      refine ⟨v, hv, fun st0 => ?_⟩
+      rcases hf : execField c fuel dfr rt src (path ++ [.key k]) fd nodes st0 with ⟨r1, st2⟩
+      have := hall st0
+      rw [hf] at this
+      simp only at this
+      subst this
+      rw [(fuelP c fuel).field _ _ _ _ _ _ _ _ _ hf (by simp)]
+    intro k nodes node fd hm hnode hfd
+    split at h
+    · rename_i hh
+      rcases List.mem_cons.mp hm with hm | hm
+      · cases hm; rw [hh] at hnode; cases hnode
+      · exact hlift _ _ h k nodes node fd hm hnode hfd
+    · rename_i node0 hh
+      split at h
+      · rename_i hfd0
+        rcases List.mem_cons.mp hm with hm | hm
+        · cases hm; rw [hh] at hnode; cases hnode; rw [hfd0] at hfd; cases hfd
+        · exact hlift _ _ h k nodes node fd hm hnode hfd
+      · rename_i fd0 hfd0
+        rcases hf : execField c fuel dfr rt src (path ++ [.key key]) fd0 nodes0 st with ⟨r1, st1⟩
+        rw [hf] at h
+        cases r1 with
+        | ok v0 =>
+          simp only at h
+          rcases List.mem_cons.mp hm with hm | hm
+          · cases hm
+            rw [hh] at hnode; cases hnode
+            rw [hfd0] at hfd; cases hfd
+            obtain ⟨_, -, -, hok⟩ := (errP c fuel).groups _ _ _ _ _ _ _ _ _ h
+            obtain ⟨⟨more, hmore⟩, -⟩ := hok fs rfl
+            refine ⟨v0, by rw [hmore]; simp, fun st0 => ?_⟩
+            rcases hf0 : execField c fuel dfr rt src (path ++ [.key key]) fd nodes0 st0 with ⟨r2, st2⟩
+            have := execField_result_state_independent c fuel dfr rt src (path ++ [.key key]) fd nodes0 st st0
+            rw [hf, hf0] at this
+            simp only at this
+            subst this
+            rw [(fuelP c fuel).field _ _ _ _ _ _ _ _ _ hf0 (by simp)]
+          · exact hlift _ _ h k nodes node fd hm hnode hfd
+        | fail => simp at h
+        | fuelOut => simp at h
 
 end GqlModel.Exec
